@@ -129,28 +129,22 @@ class ASTListener(ModelicaListener):
         class_node.extends.append(extends_clause)
 
     def exitComposition(self, ctx: ModelicaParser.CompositionContext):
-        for clause in self.ast[ctx.epriv]:
-            if isinstance(clause, ast.ComponentClause):
-                for symbol in clause.symbol_list:
-                    symbol.visibility = ast.Visibility.PRIVATE
-            elif isinstance(clause, ast.ExtendsClause):
-                clause.visibility = ast.Visibility.PRIVATE
-
-        if ctx.epub is not None:
-            for clause in self.ast[ctx.epub]:
-                if isinstance(clause, ast.ComponentClause):
-                    for symbol in clause.symbol_list:
-                        symbol.visibility = ast.Visibility.PUBLIC
-                elif isinstance(clause, ast.ExtendsClause):
-                    clause.visibility = ast.Visibility.PUBLIC
-
-        if ctx.epro is not None:
-            for clause in self.ast[ctx.epro]:
-                if isinstance(clause, ast.ComponentClause):
-                    for symbol in clause.symbol_list:
-                        symbol.visibility = ast.Visibility.PROTECTED
-                elif isinstance(clause, ast.ExtendsClause):
-                    clause.visibility = ast.Visibility.PROTECTED
+        # The labels epub/epro only hold the last public/protected element list,
+        # so walk over all children and keep track of the section we are in.
+        visibility = ast.Visibility.PRIVATE
+        for child in ctx.getChildren():
+            if isinstance(child, ModelicaParser.Element_listContext):
+                for clause in self.ast[child]:
+                    if isinstance(clause, ast.ComponentClause):
+                        for symbol in clause.symbol_list:
+                            symbol.visibility = visibility
+                    elif isinstance(clause, ast.ExtendsClause):
+                        clause.visibility = visibility
+            elif isinstance(child, antlr4.TerminalNode):
+                if child.getText() == "public":
+                    visibility = ast.Visibility.PUBLIC
+                elif child.getText() == "protected":
+                    visibility = ast.Visibility.PROTECTED
 
         for eqlist in [self.ast[e] for e in ctx.equation_section()]:
             if eqlist is not None:
